@@ -22,7 +22,7 @@ From PQ Require Import Base.Bytes Base.Varint Base.BitPack.
 From PQ Require Import Enc.DeltaBP Enc.DeltaBPProofs Enc.Rle Enc.RleProofs.
 From PQ Require Import Enc.Plain Enc.PlainProofs Enc.ByteArrayDelta Enc.ByteArrayDeltaProofs.
 From PQ Require Import Enc.GoDecBase Enc.GoDecRle Enc.GoDecRleProofs Enc.GoDecBitsProofs.
-From PQ Require Import Enc.GoDecDelta Enc.GoDecDeltaProofs.
+From PQ Require Import Enc.GoDecDelta Enc.GoDecDeltaProofs Enc.DeltaBPFast Enc.DeltaBPFastProofs Enc.PlainFast Enc.PlainFastProofs.
 Import ListNotations.
 Open Scope N_scope.
 
@@ -38,6 +38,46 @@ Theorem C04_delta_binary_packed_int64 : forall xs tail,
   Forall (in_sint 64) xs -> N.of_nat (length xs) < 2 ^ 64 ->
   DeltaBP.dec 64 (DeltaBP.enc 64 xs ++ tail) = Some (xs, tail).
 Proof. exact (fun xs tail => dec_enc 64 (or_intror eq_refl) xs tail). Qed.
+
+(** The geometry of a DELTA_BINARY_PACKED page -- values per block, mini-blocks
+    per block -- is the writer's choice, written in the header (the format: a
+    block size that is a multiple of 128, mini-blocks of a multiple of 32
+    values; Go writes 128 / 4, parquet-rs 256 / 4 for INT64).  [DeltaBP.enc_g
+    bs nmb] is the encoder at the geometry [bs] / [nmb]; Go's encoder is its
+    instance at Go's constants.  The specification decoder inverts it at every
+    geometry the format allows (and at every geometry with mini-blocks of a
+    multiple of 8 values: [legal_geometry]). *)
+Theorem C04_delta_geometry_facts :
+  (forall k xs, DeltaBP.enc k xs = DeltaBP.enc_g block_size num_mini_blocks k xs)
+  /\ N.of_nat block_size = 128 /\ N.of_nat num_mini_blocks = 4
+  /\ (forall bs nmb, format_geometry bs nmb -> legal_geometry bs nmb)
+  /\ (forall bs nmb, go_geometry bs nmb -> format_geometry bs nmb).
+Proof.
+  exact (conj (fun k xs => eq_refl) (conj block_size_128 (conj num_mini_blocks_4
+           (conj format_geometry_legal go_geometry_format_g)))).
+Qed.
+
+Theorem C04_delta_binary_packed_any_geometry : forall bs nmb k xs tail,
+  legal_geometry bs nmb -> k = 32 \/ k = 64 ->
+  Forall (in_sint k) xs -> N.of_nat (length xs) < 2 ^ 64 ->
+  DeltaBP.dec k (DeltaBP.enc_g bs nmb k xs ++ tail) = Some (xs, tail).
+Proof. exact (fun bs nmb k xs tail Hl Hk => dec_enc_g bs nmb Hl k Hk xs tail). Qed.
+
+(** the functions the oracle runs in place of the quadratic-time ones of the
+    theorems (mini-blocks packed eight values at a time, Enc/DeltaBPFast.v;
+    BYTE_STREAM_SPLIT streams consumed in step, Enc/PlainFast.v) compute the
+    same results *)
+Theorem C04_oracle_fast_functions : forall cap bs1 nmb1 bs2 nmb2 k xs vs,
+  legal_geometry bs1 nmb1 -> legal_geometry bs2 nmb2 ->
+  enc_f bs1 nmb1 k xs = DeltaBP.enc_g bs1 nmb1 k xs /\ enc_fast k xs = DeltaBP.enc k xs /\
+  dlba_enc_f bs1 nmb1 vs = dlba_enc_g bs1 nmb1 vs /\ dlba_enc_fast vs = dlba_enc vs /\
+  dba_enc_f cap bs1 nmb1 bs2 nmb2 vs = dba_enc_g cap bs1 nmb1 bs2 nmb2 vs /\ dba_enc_fast vs = dba_enc vs /\
+  (forall size b, bss_dec_fast size b = bss_dec size b).
+Proof.
+  exact (fun cap bs1 nmb1 bs2 nmb2 k xs vs H1 H2 =>
+           conj (enc_f_eq bs1 nmb1 H1 k xs) (conj (enc_fast_eq k xs) (conj (dlba_enc_f_eq bs1 nmb1 H1 vs) (conj (dlba_enc_fast_eq vs)
+             (conj (dba_enc_f_eq cap bs1 nmb1 bs2 nmb2 vs H1 H2) (conj (dba_enc_fast_eq vs) bss_dec_fast_eq)))))).
+Qed.
 
 (** RLE / bit-packed hybrid at every bit width: levels ([int32 = false]) and
     dictionary indexes ([int32 = true]); values must fit the width. *)
@@ -102,6 +142,23 @@ Theorem C04_delta_byte_array : forall vs,
   Forall short vs -> N.of_nat (length vs) < 2 ^ 64 -> dba_dec (dba_enc vs) = Some vs.
 Proof. exact dba_roundtrip. Qed.
 
+(** ... with the length sections written at any geometry, and (DELTA_BYTE_ARRAY)
+    any cap on the length of the shared prefix: a conforming writer need not
+    share the longest common prefix *)
+Theorem C04_delta_byte_arrays_any_geometry : forall cap bs1 nmb1 bs2 nmb2 vs,
+  legal_geometry bs1 nmb1 -> legal_geometry bs2 nmb2 ->
+  Forall short vs -> N.of_nat (length vs) < 2 ^ 64 ->
+  dlba_dec (dlba_enc_g bs1 nmb1 vs) = Some vs
+  /\ dba_dec (dba_enc_g cap bs1 nmb1 bs2 nmb2 vs) = Some vs.
+Proof.
+  exact (fun cap bs1 nmb1 bs2 nmb2 vs H1 H2 Hs Hn =>
+           conj (dlba_roundtrip_g bs1 nmb1 vs H1 Hs Hn) (dba_roundtrip_g cap bs1 nmb1 bs2 nmb2 vs H1 H2 Hs Hn)).
+Qed.
+
+Print Assumptions C04_delta_geometry_facts.
+Print Assumptions C04_delta_binary_packed_any_geometry.
+Print Assumptions C04_oracle_fast_functions.
+Print Assumptions C04_delta_byte_arrays_any_geometry.
 Print Assumptions C04_delta_binary_packed_int32.
 Print Assumptions C04_delta_binary_packed_int64.
 Print Assumptions C04_rle_hybrid.
@@ -122,6 +179,21 @@ Example C04_ex_delta_extremes :
   DeltaBP.dec 32 (DeltaBP.enc 32 [-2147483648; 2147483647; 0; -1; 7]%Z)
   = Some ([-2147483648; 2147483647; 0; -1; 7]%Z, []).
 Proof. vm_compute. reflexivity. Qed.
+
+(** the geometry parquet-rs uses for INT64 is a format geometry; a page of 70
+    values written with it (two mini-blocks of 64 values in use) *)
+Example C04_ex_delta_geometry_hyp : format_geometry 256 4 /\ legal_geometry 256 4 /\ go_geometry 256 4.
+Proof.
+  assert (H : go_geometry 256 4) by (unfold go_geometry; repeat split; vm_compute; try reflexivity; try lia; intros E; discriminate E).
+  split; [apply go_geometry_format_g, H|]. split; [apply format_geometry_legal, go_geometry_format_g, H|exact H].
+Qed.
+
+Example C04_ex_delta_geometry :
+  let xs := map (fun i => (Z.of_nat i * Z.of_nat i * 1000003 - 9223372036854775807)%Z) (seq 0 70) in
+  DeltaBP.dec 64 (DeltaBP.enc_g 256 4 64 xs ++ [7]) = Some (xs, [7])
+  /\ go_dbp_dec 64 (DeltaBP.enc_g 256 4 64 xs ++ [7]) = GOk (xs, [7])
+  /\ enc_f 256 4 64 xs = DeltaBP.enc_g 256 4 64 xs.
+Proof. vm_compute. repeat split; reflexivity. Qed.
 
 Example C04_ex_delta_hyp : Forall (in_sint 32) [-2147483648; 2147483647; 0; -1; 7]%Z.
 Proof. repeat constructor; unfold in_sint; cbn; lia. Qed.
@@ -269,6 +341,28 @@ Theorem C04_go_decoder_delta_int64 : forall xs tail,
   go_dbp_dec 64 (DeltaBP.enc 64 xs ++ tail) = GOk (xs, tail).
 Proof. exact (go_dbp_roundtrip 64 (or_intror eq_refl)). Qed.
 
+(** ... and Go decode (encode xs ++ tail) = (xs, tail) for the encoder at EVERY
+    geometry that Go's header checks admit (block size a multiple of 128 and at
+    most 65536, mini-blocks of a multiple of 32 values): the pages of writers
+    that do not choose 128 / 4 *)
+Theorem C04_go_decoder_delta_any_geometry : forall bs nmb k xs tail,
+  go_geometry bs nmb -> k = 32 \/ k = 64 ->
+  Forall (in_sint k) xs -> N.of_nat (length xs) <= max_int32 -> wf_bytes tail ->
+  go_dbp_dec k (DeltaBP.enc_g bs nmb k xs ++ tail) = GOk (xs, tail).
+Proof. exact (fun bs nmb k xs tail Hg Hk => go_dbp_roundtrip_g bs nmb Hg k Hk xs tail). Qed.
+
+Theorem C04_go_decoder_delta_byte_arrays_any_geometry : forall cap bs1 nmb1 bs2 nmb2 vs,
+  go_geometry bs1 nmb1 -> go_geometry bs2 nmb2 ->
+  Forall short vs -> Forall wf_bytes vs ->
+  N.of_nat (length vs) <= max_int32 -> N.of_nat (length (concat vs)) < 2 ^ 32 ->
+  go_dlba_dec (dlba_enc_g bs1 nmb1 vs) = GOk (concat vs, offsets_from 0 vs)
+  /\ go_dba_dec (dba_enc_g cap bs1 nmb1 bs2 nmb2 vs) = GOk vs.
+Proof.
+  exact (fun cap bs1 nmb1 bs2 nmb2 vs H1 H2 Hs Hw Hn Hl =>
+           conj (go_dlba_roundtrip_g bs1 nmb1 vs H1 Hs Hw Hn Hl)
+                (go_dba_roundtrip_g cap bs1 nmb1 bs2 nmb2 vs H1 H2 Hs Hw Hn)).
+Qed.
+
 (** DELTA_LENGTH_BYTE_ARRAY: Go returns the value bytes and the offsets that
     cut them into the values; DELTA_BYTE_ARRAY: the values *)
 Theorem C04_go_decoder_delta_length_byte_array : forall vs,
@@ -298,6 +392,8 @@ Print Assumptions C04_go_decoder_delta_accepts_spec_partial.
 Print Assumptions C04_go_decoder_delta_accepts_spec_full_refuted.
 Print Assumptions C04_go_decoder_delta_int32.
 Print Assumptions C04_go_decoder_delta_int64.
+Print Assumptions C04_go_decoder_delta_any_geometry.
+Print Assumptions C04_go_decoder_delta_byte_arrays_any_geometry.
 Print Assumptions C04_go_decoder_delta_length_byte_array.
 Print Assumptions C04_go_decoder_delta_byte_array.
 
